@@ -13,6 +13,7 @@
  */
 #include "src/static.c"
 #include "verif_post.h"
+#define VF_MAX_LIVE 16384
 #include "vf_harness.h"
 #include <limits.h>
 
@@ -887,6 +888,57 @@ static void mode_hardened(void) {
 static void mode_hardened(void) { fprintf(stderr, "mode hardened needs a secure or debug build\n"); vf_sh->infra_error = 1; }
 #endif
 
+/* ================================================================================================
+ * mode fillpage (C01): pages filled to their very last block, next to a neighbour page
+ * For every size class up to 1 KiB and seven consecutive pages of it (so that the page's slice index takes every residue the
+ * block size can interact with): one block of the class (opens the page), one block of a fresh larger class (its page takes
+ * the next slice, first block at the start of the slice), then blocks of the class until the page is full. The model checks
+ * every returned block against all live ones (overlap, accessibility) and all contents at the end of the round.
+ * ============================================================================================== */
+static void* g_kept[60000]; static int g_nkept;
+static void mode_fillpage(void) {
+  long idx = 0;
+  static const size_t neighbours[] = { 1024, 1280, 1536, 1792, 2048, 2560, 3072, 3584, 4096, 5120, 6144, 7168, 8192 };
+  for (size_t bin = 1; bin < MI_BIN_HUGE; bin++) {
+    size_t bs = _mi_bin_size((uint8_t)bin);
+    if (bs > 1024) break;
+    long my = idx++;
+    if ((my % g_workers) != g_worker) continue;
+    g_case = my;
+    for (int round = 0; round < 7; round++) {
+      CASE_BEGIN("fillpage #%ld class %zu page %d", my, bs, round);
+      VF_INC(nodes);
+      /* (the previous round filled the previous page of this class completely: this allocation opens a new one) */
+      uint8_t* first = (uint8_t*)mi_malloc(bs);
+      if (vf_model_alloc(first, bs, 0, 0, 0, 0, "mi_malloc") < 0) return;
+      mi_page_t* pg = _mi_ptr_page(first);
+      size_t nbs = neighbours[(my + round) % 13]; if (_mi_bin(nbs) == _mi_bin(bs)) nbs = neighbours[(my + round + 1) % 13];
+      void* nb = mi_malloc(nbs);
+      if (vf_model_alloc(nb, nbs, 0, 0, 0, 0, "mi_malloc[neighbour]") < 0) return;
+      long n = 1;
+      for (;;) {
+        if (pg->free == NULL && pg->local_free == NULL && pg->capacity == pg->reserved) break;   /* full: the next one would open another page */
+        void* p = mi_malloc(bs);
+        VF_INC(transitions);
+        if (vf_model_alloc(p, bs, 0, 0, 0, 0, "mi_malloc") < 0) return;
+        if (_mi_ptr_page(p) != pg) { vf_model_remove_ordered(vf_nlive - 1); mi_free(p); break; }
+        if (++n > 9000) { VIOL("page-never-full", "page of class %zu took more than 9000 blocks", bs); return; }
+      }
+      VF_INC(checks);
+      if (vf_model_check_all("page full") != 0) return;
+      if ((size_t)n != pg->reserved) { VIOL("page-count", "page of class %zu holds %ld blocks, reserved %u", bs, n, (unsigned)pg->reserved); return; }
+      VF_INC(nontrivial);
+      /* the page stays full (so that the next round opens a new page); its blocks leave the model except the last two and
+         the neighbour, and are released when the class is done */
+      while (vf_nlive > 3 * (round + 1)) { int i = 3 * round; if (vf_model_check_one(i, "end of round") != 0) return; if (g_nkept < 60000) g_kept[g_nkept++] = vf_live[i].p; vf_model_remove_ordered(i); }
+      if (vf_err_count > 0) { VIOL("error-callback", "mimalloc reported error %d", vf_err_last); return; }
+    }
+    while (vf_nlive > 0) { vf_blk_t b = vf_live[0]; if (vf_model_check_one(0, "before free") != 0) return; vf_model_remove_ordered(0); mi_free(b.p); }
+    while (g_nkept > 0) mi_free(g_kept[--g_nkept]);
+    if (my == g_stop_at) return;
+  }
+}
+
 static void run_mode(void) {
   if      (strcmp(g_mode, "align") == 0) mode_align();
   else if (strcmp(g_mode, "entry") == 0) mode_entry();
@@ -895,6 +947,7 @@ static void run_mode(void) {
   else if (strcmp(g_mode, "zero") == 0) mode_zero();
   else if (strcmp(g_mode, "badargs") == 0) mode_badargs();
   else if (strcmp(g_mode, "hardened") == 0) mode_hardened();
+  else if (strcmp(g_mode, "fillpage") == 0) mode_fillpage();
   else { fprintf(stderr, "unknown mode %s\n", g_mode); vf_sh->infra_error = 1; }
 }
 
